@@ -817,6 +817,8 @@ def r16_eval_panic(c, facts, rule='C01.R16'):
 
 
 def run(c, facts):
+    import inferrules as _I11
+    c.run(lambda c: _I11.unify_symmetric(c, facts, c.rule('C01.R17', 'UNIFY-EXACT (shared C07.R19): two different kinds never unify - the position tables read `tag = Uri` as "evaluates to a URI", and a relation on a cycle evaluates to the recursion marker')))
     c.run(r16_eval_panic, facts)
     import c09 as _c09
     c.run(lambda c: _c09.r9_mark_monotone(c, facts, rule='C01.R14'))
